@@ -92,7 +92,7 @@ CHECKS = {
     "C10": dict(
         level="exploration", design="§5 C10", technique="registry swept by a driver; TLC evaluates the TLA+ contract table, class predicates and determinism clauses on every recorded call (Trace_Generators); determinism state machine model-checked",
         text="Every key of the generator registry except 'convex' is invoked for n=3..6 (quick, 24/16/6/3 seeds) / 3..8 (thorough, 160..20 seeds), twice per seed with identically seeded "
-             "numpy Generators, the first result being modified in place before the second call; TLC checks on each recorded pair: no exception, requested player count, v(empty)=0, float64, superadditive, additionally monotone "
+             "numpy Generators, the first result being modified in place before the second call, and a third time after every other name and seed at that player count has been called in between; TLC checks on each recorded pair: no exception, requested player count, v(empty)=0, float64, superadditive, additionally monotone "
              "non-increasing for the XOS/XS/OXS/K-budget/coverage families (contract table in Generators.tla), bit-identical repeat unless the family is a documented "
              "exception, and owner rotation for the round-robin factory.",
         note="seeds are sampled, not exhausted; the specification contributes the oracle, not exhaustiveness"),
